@@ -136,6 +136,14 @@ static void script_bigvector(void)
     for (k = 0; k < 9 && !failed && !aborted_run; k++) {
         size_t c0, s0;
         if (k == 4) { step_begin("bigvector shrink_to_fit"); SHIM_CALL(ab, cstl_vector_shrink_to_fit(&v)); CHECK(!ab, "shrink aborted"); vec_check(&v, size, "after shrink_to_fit"); }
+        if (k == 7 || k == 2) {      /* reserve on a vector that holds storage but (k == 7) no element: a failure must leave storage and capacity alone */
+            const void *d0 = cstl_vector_data(&v); size_t want = cstl_vector_capacity(&v) + 50;
+            c0 = cstl_vector_capacity(&v);
+            step_begin("bigvector reserve");
+            SHIM_CALL(ab, cstl_vector_reserve(&v, want)); CHECK(!ab, "reserve aborted");
+            if (cstl_vector_capacity(&v) < want) { CHECK(fault_in_step(), "reserve failed without an allocation failure"); CHECK(cstl_vector_data(&v) == d0 && cstl_vector_capacity(&v) == c0, "failed reserve changed the vector (capacity %zu -> %zu, storage %s)", c0, cstl_vector_capacity(&v), cstl_vector_data(&v) == d0 ? "kept" : "replaced or dropped"); tr("reserve->noop "); }
+            vec_check(&v, size, "after reserve");
+        }
         c0 = cstl_vector_capacity(&v); s0 = cstl_vector_size(&v);
         step_begin("bigvector resize");
         SHIM_CALL(ab, cstl_vector_resize(&v, sizes[k]));
@@ -199,6 +207,12 @@ static void NAME(void) \
     SHIM_CALL(ab, PFX##reserve(&a, 10)); CHECK(!ab, "reserve on a fresh string aborted"); \
     CHECK(PFX##size(&a) == 0 && PFX##str(&a)[0] == 0, "after reserve the fresh string is not the empty string"); \
     if (PFX##capacity(&a) < 10) { CHECK(fault_in_step(), "reserve failed without an allocation failure"); tr("reserve(fresh)->noop "); } \
+    /* a second, larger reserve on the string that so far was only reserved (storage but no characters) */ \
+    { size_t c1 = PFX##capacity(&a); step_begin(#NAME " second reserve on the still empty string"); \
+      SHIM_CALL(ab, PFX##reserve(&a, 30)); CHECK(!ab, "second reserve aborted"); \
+      CHECK(PFX##size(&a) == 0 && PFX##str(&a)[0] == 0, "after the second reserve the string is not the empty string"); \
+      if (PFX##capacity(&a) < 30) { CHECK(fault_in_step(), "reserve failed without an allocation failure"); CHECK(PFX##capacity(&a) == c1, "failed reserve changed the capacity %zu -> %zu", c1, PFX##capacity(&a)); \
+          if (c1 > 0) { SHIM_CALL(ab, PFX##append_str(&a, LIT("ab"))); CHECK(!ab || c1 < 2, "append within the capacity the string still reports aborted"); if (!ab) { CHECK(PFX##size(&a) == 2, "append within capacity lost"); SHIM_CALL(ab, PFX##resize(&a, 0)); } } } } \
     for (k = 0; k < 8 && !failed && !aborted_run; k++) { \
         CH before[64]; size_t bsz = PFX##size(&a); memcpy(before, ref, sizeof before); \
         step_begin(#NAME); \
